@@ -256,7 +256,7 @@ func ReadPatchString(s string) (Diff, error) {
 			diff = append(diff, e)
 		} else {
 			i := len(diff) - 1
-			if diff[i].Path.JsonNode().Equals(e.Path.JsonNode()) {
+			if diff[i].Path.JsonNode().Equals(e.Path.JsonNode()) && !hasPatchContext(e) {
 				diff[i].Remove = append(diff[i].Remove, e.Remove...)
 				if isAppendPath(e.Path) {
 					// Appending keeps the order of the operations
@@ -270,6 +270,18 @@ func ReadPatchString(s string) (Diff, error) {
 			}
 		}
 	}
+}
+
+// hasPatchContext reports whether a diff element read from a JSON Patch
+// carries context tests of its own. Such an element starts a new hunk and
+// must not be merged into the previous one, which would drop the tests.
+func hasPatchContext(e DiffElement) bool {
+	for _, c := range append(append([]JsonNode{}, e.Before...), e.After...) {
+		if !isVoid(c) {
+			return true
+		}
+	}
+	return false
 }
 
 // isAppendPath reports whether a path ends in the -1 index ("-" in a
